@@ -72,15 +72,16 @@ PLANS["C07"] = {
     "rule": "random resize cases on the six alpha pixel types (transparent stripes, islands, borders, single pixels, all-zero, low alpha) "
             "with alpha handling on; each run three times per back-end: source A, source B = A with other colours under alpha = 0, and A "
             "with alpha handling off; relations (i) A==B results, (ii) zero alpha => zero colour, (iii) opaque source == alpha-off, "
-            "(iv) alpha channel == plain resampling, (v) non-alpha types unaffected; non-trivial = source has both transparent and "
+            "(iv) alpha channel == plain resampling, (v) non-alpha types unaffected, (vi) alpha-aware resize == multiply_alpha -> plain resize -> "
+            "divide_alpha bit for bit; non-trivial = source has both transparent and "
             "non-transparent pixels; geometries where dst size == integer crop (C12: exact copy) are excluded and counted",
     "assumptions": CONV_ASSUME + ["colours under zero alpha are finite (NaN*0 is NaN in any implementation)"],
     "quick": [step("rel", "firv-core", 120000)],
     "thorough": [step("rel", "firv-core", 3000000, timeout=7200), step("asan", "firv-core", 100000, timeout=7200)],
 }
 FLOORS["C07"] = {"quick": [
-    (">= 10000 cases with partial transparency, >= 1000 opaque cases, >= 10^5 zero-alpha destination pixels",
-     lambda o: o["counters"]["cases_with_partial_transparency"] >= 10000 and o["counters"]["opaque_cases"] >= 1000 and o["counters"]["zero_alpha_dst_pixels"] >= 100000),
+    (">= 10000 cases with partial transparency, >= 1000 opaque cases, >= 10^5 zero-alpha destination pixels, >= 10^5 composition checks",
+     lambda o: o["counters"]["cases_with_partial_transparency"] >= 10000 and o["counters"]["opaque_cases"] >= 1000 and o["counters"]["zero_alpha_dst_pixels"] >= 100000 and o["counters"]["composition_checks"] >= 100000),
 ]}
 FLOORS["C07"]["thorough"] = FLOORS["C07"]["quick"]
 
@@ -255,7 +256,7 @@ FLOORS["C13"]["thorough"] = FLOORS["C13"]["quick"]
 
 PLANS["C14"] = {
     "rule": "exhaustive: 7 view kinds (owned, slice over an oversized buffer, reference, cropped, nested-cropped, mutable cropped, nested "
-            "mutable) x all view sizes 0..=N x 0..=N (N=8 quick, 20 thorough) x placements x both axes x every (start, size, parts) with "
+            "mutable) x all view sizes 0..=N x 0..=N (N=10 quick, 20 thorough) x placements x both axes x every (start, size, parts) with "
             "start 0..=extent+1, size 1..=extent+1, parts 1..=size+1, plus values near u32::MAX and split-of-split; parts are read through "
             "ImageView (identity tags) and, for mutable views, written ((index+1)<<20 added) and read back through the parent: every band "
             "pixel incremented exactly once by the right part, nothing else changed; interleave step: sibling mutable parts used alternately "
